@@ -1,0 +1,15 @@
+/*
+ * Verification hook points (no effect unless UNIFEX_VERIF_HOOKS is defined).
+ *
+ * UNIFEX_VERIF_POINT(site) marks a position between two atomic steps of a
+ * protocol. With the guard on, the harness supplies unifex_verif_point(),
+ * which counts the visit and may yield/spin/sleep to widen the race window.
+ */
+#pragma once
+
+#if defined(UNIFEX_VERIF_HOOKS)
+extern "C" void unifex_verif_point(unsigned site) noexcept;
+#  define UNIFEX_VERIF_POINT(site) ::unifex_verif_point(site)
+#else
+#  define UNIFEX_VERIF_POINT(site) ((void)0)
+#endif
